@@ -194,6 +194,10 @@ pub trait Scenario: Sync {
     /// strictly simpler candidate plans, most aggressive first
     fn shrink(&self, plan: &Self::Plan) -> Vec<Self::Plan>;
     fn doc(&self) -> Doc;
+    /// whether a report of the per-thread allocation tracker is a violation in this scenario (default: no)
+    fn allocator_reports_are_verdicts(&self) -> bool {
+        false
+    }
 }
 
 thread_local! {
@@ -247,6 +251,15 @@ pub fn exec_plan<S: Scenario>(sc: &S, plan: &S::Plan, target: &str) -> (Option<V
     let mem = crate::alloc_track::disarm();
     ctx.count_n("allocator:tracked-allocations", mem.tracked_allocs);
     let v = match r {
+        // Only the scenario whose workload is known to stay in one thread (the Sig workload of C18) turns an
+        // allocator anomaly into a verdict: the per-thread tracker cannot follow blocks that cross threads, and a
+        // library that legitimately starts threads of its own would otherwise raise a false "layout mismatch".
+        // Everywhere else the tracker stays armed as a safety net (a double free is recorded instead of aborting
+        // the harness) and its report is only counted.
+        Ok(Ok(())) if !mem.clean() && !sc.allocator_reports_are_verdicts() => {
+            ctx.count("observation:allocator-anomaly-not-a-verdict-here");
+            None
+        }
         Ok(Ok(())) if !mem.clean() => Some(Violation {
             property: if target == "*" { "?".into() } else { target.to_string() },
             oracle: "invalid-free".into(),
